@@ -74,3 +74,63 @@ Definition anchored_block (file : list N) (n : N) (lit : list N) (b : N * N) : l
 
 Definition anchored_scan (keep : mtch -> mtch -> mtch) (file : list N) (n : N) (lit : list N) (blocks : list (N * N)) : list mtch :=
   fold_left (fun acc b => add_all keep (anchored_block file n lit b) acc) blocks [].
+
+(* ---- MatchList::add with the base of the block, and the snippets ----
+   A listed match is (base, start, end).  add_b follows MatchList::add arm by
+   arm; whether the two same-start arms move the base is GENERATED
+   (ml_tail_arm_moves_base, ml_search_arm_moves_base). *)
+Definition bmatch := (N * N * N)%type.
+Definition b_base (m : bmatch) : N := fst (fst m).
+Definition b_start (m : bmatch) : N := snd (fst m).
+Definition b_end (m : bmatch) : N := snd m.
+
+Fixpoint add_b (replace : bool) (m : bmatch) (l : list bmatch) : list bmatch :=
+  match l with
+  | [] => [m]                                        (* None => push *)
+  | x :: r =>
+      if b_start m <? b_start x then m :: l          (* Err(index) => insert *)
+      else if b_start m =? b_start x then
+        match r with
+        | [] =>                                      (* same start as the LAST match: the end is overwritten *)
+            [if replace then ((if ml_tail_arm_moves_base then b_base m else b_base x), b_start x, b_end m) else x]
+        | _ =>                                       (* found by the binary search: replaced when longer *)
+            (if replace && (b_end x <? b_end m)
+             then ((if ml_search_arm_moves_base then b_base m else b_base x), b_start x, b_end m) else x) :: r
+        end
+      else x :: add_b replace m r                    (* push at the end / keep searching *)
+  end.
+
+(* snippets: (offset where the snippet starts, length) *)
+Definition snippet := (N * N)%type.
+Definition covers (s : snippet) (m : bmatch) : bool := (fst s <=? b_start m) && (b_end m <=? fst s + snd s).
+
+(* Entry::Occupied => replaced when longer; Entry::Vacant => inserted *)
+Fixpoint put_snippet (s : snippet) (l : list snippet) : list snippet :=
+  match l with
+  | [] => [s]
+  | x :: r => if fst x =? fst s then (if snd x <? snd s then s else x) :: r else x :: put_snippet s r
+  end.
+
+(* blocks::Scanner::scan after the search of block (base, len): a snippet for
+   every listed match that belongs to the block *)
+Definition collect_snippets (ctx : N) (blk : N * N) (ms : list bmatch) (snips : list snippet) : list snippet :=
+  fold_left (fun acc m =>
+    if (b_base m =? fst blk) && (if snippet_filter_checks_end then b_end m <=? fst blk + snd blk else true)
+    then let cs := N.max (b_start m - ctx) (fst blk) in
+         let ce := N.min (b_end m + ctx) (fst blk + snd blk) in
+         put_snippet (cs, ce - cs) acc
+    else acc) ms snips.
+
+(* one block: the matches found in it (absolute ranges, replace flag) are added, then snippets are collected *)
+Definition scan_block_b (ctx : N) (st : list bmatch * list snippet) (b : (N * N) * list (N * N * bool))
+  : list bmatch * list snippet :=
+  let blk := fst b in
+  let ms := fold_left (fun acc f => add_b (snd f) (fst blk, fst (fst f), snd (fst f)) acc) (snd b) (fst st) in
+  (ms, collect_snippets ctx blk ms (snd st)).
+
+Definition scan_blocks_b (ctx : N) (bs : list ((N * N) * list (N * N * bool))) : list bmatch * list snippet :=
+  fold_left (scan_block_b ctx) bs ([], []).
+
+(* the matches reported for a block lie inside it *)
+Definition found_in_block (b : (N * N) * list (N * N * bool)) : Prop :=
+  forall f, In f (snd b) -> fst (fst b) <= fst (fst f) /\ fst (fst f) <= snd (fst f) /\ snd (fst f) <= fst (fst b) + snd (fst b).
